@@ -7,6 +7,7 @@ import (
 	"fmt"
 	"strings"
 	"sync"
+	"time"
 
 	"seata.apache.org/seata-go/pkg/rm/tcc/fence"
 	"seata.apache.org/seata-go/pkg/rm/tcc/fence/enum"
@@ -43,6 +44,10 @@ func (w *fenceWorld) close() { w.db.Close() }
 // deliver one phase for a branch through the real fence.WithFence; fault = k-th statement of the
 // local transaction fails (0 = none); cbFails = the business callback returns an error.
 func (w *fenceWorld) deliver(branch int64, phase byte, fault int, cbFails bool) (string, string) {
+	return w.deliverWith(branch, phase, fault, cbFails)
+}
+
+func (w *fenceWorld) deliverWith(branch int64, phase byte, fault int, cbFails bool) (string, string) {
 	ctx := tm.InitSeataContext(context.Background())
 	tm.SetBusinessActionContext(ctx, &tm.BusinessActionContext{Xid: "10.0.0.1:8091:77", BranchId: branch, ActionName: "action"})
 	name := ""
@@ -60,7 +65,9 @@ func (w *fenceWorld) deliver(branch int64, phase byte, fault int, cbFails bool) 
 	if fault > 0 {
 		w.eng.AddFault(memdb.Fault{Nth: fault})
 	}
-	defer w.eng.ClearFaults()
+	if fault >= 0 {
+		defer w.eng.ClearFaults()
+	}
 	res := "ok"
 	pn := safeCall(func() {
 		tx, err := w.db.BeginTx(ctx, &sql.TxOptions{})
@@ -90,6 +97,11 @@ func (w *fenceWorld) deliver(branch int64, phase byte, fault int, cbFails bool) 
 		res = "crash"
 	}
 	return res, w.state(branch)
+}
+
+// deliverKeepFaults is deliver without touching the armed faults (several deliveries share them)
+func (w *fenceWorld) deliverKeepFaults(branch int64, phase byte) (string, string) {
+	return w.deliverWith(branch, phase, -1, false)
 }
 
 func (w *fenceWorld) state(branch int64) string {
@@ -307,6 +319,56 @@ func runC06(c *Ctx) {
 			c.Out.Count("exhaustive.len" + fmt.Sprint(len(s)))
 		default:
 			c.Out.Count("faults-or-branches")
+		}
+	}
+	// directed interleavings: delivery a is held up at its k-th statement (a slow server) and delivery b runs
+	// from start to end in the gap; the outcome must be one of the serial orders, or one delivery alone when
+	// the other lost a lock or hit a duplicate key and was refused
+	nDir := 0
+	for _, prefix := range [][]byte{{}, {'P'}, {'R'}, {'P', 'C'}, {'P', 'R'}} {
+		for _, pa := range phases {
+			for _, pb := range phases {
+				for k := 2; k <= 4; k++ {
+					nDir++
+					cid := fmt.Sprintf("race-d%d", nDir)
+					if !c.Want(cid) || (c.Tier != "thorough" && nDir%3 != 0 && !(len(prefix) == 0 && pa != pb)) {
+						continue
+					}
+					a, b := c06Tok{branch: 1, phase: pa}, c06Tok{branch: 1, phase: pb}
+					w := newFenceWorld()
+					for _, ph := range prefix {
+						w.deliver(1, ph, 0, false)
+					}
+					w.eng.AddFault(memdb.Fault{Nth: k, Delay: 40 * time.Millisecond})
+					var wg sync.WaitGroup
+					var ra, rb string
+					wg.Add(2)
+					go func() { defer wg.Done(); ra, _ = w.deliverKeepFaults(1, a.phase) }()
+					go func() { defer wg.Done(); time.Sleep(12 * time.Millisecond); rb, _ = w.deliverKeepFaults(1, b.phase) }()
+					wg.Wait()
+					w.eng.ClearFaults()
+					final := w.state(1) + " " + ra + " " + rb
+					w.close()
+					cands := map[string]bool{}
+					for _, order := range [][]int{{0, 1}, {1, 0}, {0}, {1}, {}} {
+						w2 := newFenceWorld()
+						for _, ph := range prefix {
+							w2.deliver(1, ph, 0, false)
+						}
+						ans := []string{"refused", "refused"}
+						for _, x := range order {
+							ans[x], _ = w2.deliver(1, []c06Tok{a, b}[x].phase, 0, false)
+						}
+						cands[w2.state(1)+" "+ans[0]+" "+ans[1]] = true
+						w2.close()
+					}
+					c.Out.Case(cid, "C06", "skip", "skip")
+					ok := cands[final] && ra != "crash" && rb != "crash"
+					c.Out.Oracle(cid, ok, "race_not_serializable", fmt.Sprintf("prefix %q: %c held up at its statement %d while %c ran: ended in [%s], not a serial outcome %v", prefix, pa, k, pb, final, cands))
+					c.Out.Tag(cid, "nontrivial=1")
+					c.Out.Count("race-directed")
+				}
+			}
 		}
 	}
 	// two deliveries for the same branch racing (row locks fail fast): the outcome must be one of the
